@@ -326,6 +326,19 @@ class Gen:
                     Node('iassign', 'xs', [lit(1)], call(p, V('t'), V('r')))]
             self.feats.add('expr-position-sites')
             return self.finish(body, ['x', 'y', 't', 'r'])
+        if cat == 'arg-order':
+            # the arguments of an inlined call are bound in order, each after what it splices itself: an argument
+            # that mutates a list and one that reads it (sound as coded; not in the proved fragment)
+            m = Func(self.fresh('hm'), ['zs', 'v'], None,
+                     [Node('iassign', 'zs', [lit(0)], op2('add', Node('ref', V('zs'), lit(0)), V('v'))),
+                      Node('return', op2('mul', Node('ref', V('zs'), lit(0)), lit(2)))])
+            p = Func(self.fresh('hp'), ['a', 'b'], None, [asg('t', op2('mul', V('b'), lit(3))), Node('return', op2('sub', V('a'), V('t')))])
+            self.helpers += [(m, 'mut'), (p, 'pure')]
+            body = [asg('t', call(p.name, call(m.name, V('xs'), V('x')), Node('ref', V('xs'), lit(0)))),
+                    asg('r', call(p.name, Node('ref', V('xs'), lit(0)), call(m.name, V('xs'), V('y')))),
+                    asg('t', op2('add', V('t'), call(p.name, call(m.name, V('ys'), V('t')), call(m.name, V('ys'), V('r')))))]
+            self.feats.add('argument-order')
+            return self.finish(body, ['x', 'y', 't', 'r'])
         if cat == 'hoist-order':
             m, _ = self.helper('mut')
             body = [asg('t', op2(r.choice(['add', 'mul']), Node('ref', V('xs'), lit(0)), call(m.name, V('xs'), V('x')))),
@@ -564,6 +577,50 @@ def apply_real(thunk):
         return ('crash', f'{tn}: {str(e)[:200]}')
 
 
+class RefusalSpy:
+    """Records, during a real `inline(...)`, the calls each `_FuncInline` instance refused BECAUSE OF THEIR
+    POSITION (a refusal reason the code as it is does not have: it exists once fixes/C09-func-inline.diff is
+    applied), as {function name: [call numbers in visit order]} -- the oracle `refs` of the model."""
+
+    def __init__(self):
+        import fpy2.transform.func_inline as fi
+        self.fi = fi
+        self.insts = []
+
+    def __enter__(self):
+        fi, insts = self.fi, self.insts
+        self.orig = fi._FuncInline.__init__
+
+        def init(inst, *a, **k):
+            self.orig(inst, *a, **k)
+            insts.append(inst)
+        fi._FuncInline.__init__ = init
+        return self
+
+    def __exit__(self, *a):
+        self.fi._FuncInline.__init__ = self.orig
+
+    def refs(self):
+        from fpy2.ast.visitor import DefaultVisitor
+        from fpy2.function import Function
+        out = {}
+        for inst in self.insts:
+            bad = {id(e) for e, why in getattr(inst, 'refused', []) if 'ahead of the statement' in why}
+            if not bad:
+                continue
+            order = []
+
+            class _C(DefaultVisitor):
+                def _visit_call(s, e, ctx):
+                    if isinstance(e.fn, Function):
+                        order.append(id(e))
+                    super()._visit_call(e, ctx)
+            _C()._visit_function(inst.func, None)
+            occ = sorted(i for i, n in enumerate(order) if n in bad)
+            out[inst.func.name] = sorted(set(out.get(inst.func.name, [])) | set(occ))
+        return out
+
+
 # the known-finding class of a behavioural difference, by the category of the generated program
 KEY_OF_CAT = {
     'hoist-order': 'inline-hoist-past-earlier-operand',
@@ -638,7 +695,7 @@ def run(ck):
                     return
 
     # ------------------------------------------------------------ inline
-    cats = (['safe'] * 10 + ['safe-deep'] * 3 + ['expr-pure'] * 3 + ['hoist-order', 'conditional', 'with-target',
+    cats = (['safe'] * 10 + ['safe-deep'] * 3 + ['expr-pure'] * 3 + ['arg-order', 'hoist-order', 'conditional', 'with-target',
             'with-target-used', 'comp-var', 'while-cond', 'hdr-computed', 'onelevel-freevar', 'gensym-digits'])
     nprog = 260 if thorough else 58
     import os
@@ -678,7 +735,11 @@ def run(ck):
         callers = [g.small_ctx() for _ in range(3)]
         argsl = [g.args(0.0 if j < 2 else 0.3) for j in range(nargs)]
         for rec, wh in ops:
-            res = apply_real(lambda rec=rec, wh=wh: inline(main, wh, recursive=rec))
+            with RefusalSpy() as spy:
+                res = apply_real(lambda rec=rec, wh=wh: inline(main, wh, recursive=rec))
+            refs = spy.refs()
+            if refs:
+                ck.count('inline-op:position-refusals-reported')
             meta = {'strategy': f'inline(main, where={wh}, recursive={rec})', 'category': cat, 'program': src, 'sites': nsites}
             if res[0] == 'crash':
                 ck.count('inline-crash')
@@ -695,13 +756,17 @@ def run(ck):
                     continue
             ck.count('inline-op:' + ('refused:' + res[1] if res[0] == 'refused' else 'ok'))
             whc = 'None' if wh is None else f'(Some {wh}%nat)'
-            add_case(f'(KInline {P.coq()} "main" {"true" if rec else "false"} {whc} {copt(None if real is None else real.coq())})',
+            refc = clist(f'({cstr(g)}, {clist(f"{i}%nat" for i in l)})' for g, l in sorted(refs.items()))
+            add_case(f'(KInline {P.coq()} "main" {"true" if rec else "false"} {whc} {refc} {copt(None if real is None else real.coq())})',
                      dict(meta, real=(res[1].format() if res[0] == 'ok' else 'raised ' + res[1])))
             ck.nontriv(('inline', idx, rec, wh))
             if res[0] == 'ok':
                 key = KEY_OF_CAT.get(cat)
                 if cat == 'onelevel-freevar' and rec:
                     key = None
+                if cat == 'arg-order' and wh is not None:
+                    # one site only: it is hoisted over the earlier call that stays in place
+                    key = 'inline-hoist-past-earlier-operand'
                 run_pair(main, res[1], argsl, callers,
                          'inlining changed the result of a function on an input on which the original returns',
                          key, dict(meta, transformed=res[1].format()))
@@ -715,9 +780,11 @@ def run(ck):
                 cur, steps = res[1], steps + 1
             if steps:
                 ck.count('repeated-inline-chains')
+                # the intermediate functions carry generated names `base<counter>`: the only programs of this stream
+                # with digit-suffixed source names, i.e. exposed to the Gensym stale-hash clash
                 run_pair(main, cur, argsl[:3], callers,
                          'repeated one-site inlining changed the result of a function',
-                         None, {'strategy': f'inline(.., 0, recursive=False) x {steps}', 'category': cat, 'program': src,
+                         'inline-gensym-stale-hash', {'strategy': f'inline(.., 0, recursive=False) x {steps}', 'category': cat, 'program': src,
                                 'transformed': cur.format()})
     ck.log(f'inline: {len(cases)} structural cases, {stats["beh_runs"]} runs in {time.time() - t0:.1f}s')
 
@@ -874,16 +941,34 @@ def run(ck):
                'the original on 6+ argument tuples incl. specials, with and without caller context; non-trivial = distinct '
                '(program, strategy invocation)')
     t0 = time.time()
-    bad, err = ck.coq_eval_mismatches(HEADER, 'case9', cases, 'check9', chunk=max(2, len(cases) // 32 + 1), timeout=1200)
+    chunk = max(2, len(cases) // 32 + 1)
+    # first against the model of the code as it is; what differs, against the models with proposed repairs in force
+    nc, err = ck.coq_eval_mismatches(HEADER, 'case9', cases, 'ascoded9', chunk=chunk, timeout=1200)
     if err:
         ck.broken.append('structural correspondence evaluation failed: ' + err[:600])
-    for i in bad:
+    bad = []
+    if nc:
+        sub, err1 = ck.coq_eval_mismatches(HEADER, 'case9', [cases[i] for i in nc], 'check9', chunk=max(1, len(nc) // 16 + 1),
+                                           timeout=1200, tag='variants')
+        if err1:
+            ck.broken.append('structural correspondence evaluation failed: ' + err1[:600])
+        bad = [nc[j] for j in sub]
+    for k, i in enumerate(bad):
         meta = info[i]
-        out = ck.coq_eval_raw(HEADER, f'model9 {cases[i]}', name=f'diag_{i:05d}', timeout=300)
-        key = 'inline-gensym-stale-hash' if meta.get('category') == 'gensym-digits' else None
+        out = ck.coq_eval_raw(HEADER, f'model9 {cases[i]}', name=f'diag_{i:05d}', timeout=300) if k < 4 else '(not computed)'
+        # categories whose defect shows in the structure itself: a generated name that is already taken
+        # (the model's gensym is fresh by construction)
+        key = {'gensym-digits': 'inline-gensym-stale-hash',
+               'onelevel-freevar': 'inline-one-level-free-var-clash'}.get(meta.get('category'))
         ck.violation('the output of the real strategy is not the output of the Gallina model (up to renaming), or a refusal does '
                      'not coincide with the model\'s None', dict(meta, model_says=out[-2500:]), key=key)
-    nf, err2 = ck.coq_eval_mismatches(HEADER, 'case9', cases, 'notfrag9', chunk=max(2, len(cases) // 32 + 1), timeout=1200, tag='frag')
+    nf, err2 = ck.coq_eval_mismatches(HEADER, 'case9', cases, 'frag9', chunk=chunk, timeout=1200, tag='frag')
+    repaired = sorted(set(nc) - set(bad))
+    ck.extra['cases_equal_to_the_model_of_the_code_as_it_is'] = len(cases) - len(nc)
+    ck.extra['cases_equal_only_to_a_model_with_a_proposed_repair'] = len(repaired)
+    if repaired:
+        ck.log(f'{len(repaired)} cases match the model only with one of the proposed repairs (fixes/C09-*.diff) in force: '
+               'the tree under test seems to carry a repair')
     ck.extra['structural_cases'] = len(cases)
     ck.extra['cases_in_proved_fragment'] = len(cases) - len(nf)
     ck.extra['behavioural_runs'] = stats['beh_runs']
